@@ -8,8 +8,8 @@ still within one ulp of the correctly rounded value of the exact numeral `vt / 1
 namespace Qentem.StrToNum
 open Qentem.Round Qentem.Generated.StrToNum
 
-theorem powerOfNegativeTen_close_trunc (v x j vt : Nat) (hv17 : 10 ^ 17 ≤ v) (hv : v < 2 ^ 64) (hx : x ≤ 350)
-    (ht1 : v * 10 ^ j ≤ vt) (ht2 : vt < (v + 1) * 10 ^ j) :
+theorem powerOfNegativeTen_close_trunc (v x j vt : Nat) (hv16 : 10 ^ 16 ≤ v) (hv : v < 2 ^ 64) (hx : x ≤ 350)
+    (ht1 : v * 10 ^ j ≤ vt) (ht2 : 10 ^ 17 * vt < (10 ^ 17 + 1) * (v * 10 ^ j)) :
     ∃ p, powerOfNegativeTen v x = some p ∧ ulpDist p (nearestMag vt (10 ^ (x + j))) ≤ 1 := by
   obtain ⟨b, S, hps, hS, e1, e2⟩ := negScale_error_steps v x hv (by omega)
   have hdiv : x / 27 ≤ 12 := by omega
@@ -17,7 +17,7 @@ theorem powerOfNegativeTen_close_trunc (v x j vt : Nat) (hv17 : 10 ^ 17 ≤ v) (
   generalize stepsOf x = k at *
   have hlow := negScale_lower v x b _ hv hps
   have hb256 := negScale_lt v x b _ hps
-  have hv0 : 0 < v := Nat.lt_of_lt_of_le (Nat.pow_pos (by decide)) hv17
+  have hv0 : 0 < v := Nat.lt_of_lt_of_le (Nat.pow_pos (by decide)) hv16
   have h10j : 0 < 10 ^ j := Nat.pow_pos (by decide)
   have hvt0 : 0 < vt := Nat.lt_of_lt_of_le (Nat.mul_pos hv0 h10j) ht1
   -- the big integer is wide
@@ -26,8 +26,8 @@ theorem powerOfNegativeTen_close_trunc (v x j vt : Nat) (hv17 : 10 ^ 17 ≤ v) (
     · exfalso
       have h1 : 2 ^ (x / 27 + 1) * (b + 1) ≤ 2 ^ 13 * 2 ^ 100 :=
         Nat.mul_le_mul (Nat.pow_le_pow_right (by decide) (by omega)) (by omega)
-      have h2 : (2 : Nat) ^ 13 * 2 ^ 100 < 10 ^ 17 * 2 ^ 64 := by decide +kernel
-      have h3 : 10 ^ 17 * 2 ^ 64 ≤ v * 2 ^ 64 := Nat.mul_le_mul_right _ hv17
+      have h2 : (2 : Nat) ^ 13 * 2 ^ 100 < 10 ^ 16 * 2 ^ 64 := by decide +kernel
+      have h3 : 10 ^ 16 * 2 ^ 64 ≤ v * 2 ^ 64 := Nat.mul_le_mul_right _ hv16
       omega
     · exact h
   have hb0 : b ≠ 0 := by intro h; subst h; exact absurd hb100 (by decide)
@@ -51,27 +51,7 @@ theorem powerOfNegativeTen_close_trunc (v x j vt : Nat) (hv17 : 10 ^ 17 ≤ v) (
   generalize hPd : 2 ^ (64 + S) = P at *
   generalize hGd : 2 ^ (Nat.log2 b - 54) = G at *
   generalize hDd : 5 ^ x = D at *
-  -- truncation: 8·P ≤ 7·G·D
-  have htr : 8 * P ≤ 7 * (G * D) := by
-    have h1 : 8 * (10 ^ 17 * P) ≤ 8 * (v * P) := Nat.mul_le_mul_left _ (Nat.mul_le_mul_right _ hv17)
-    have h2 : (8 * b + G) * D ≤ (2 ^ 58 + 1) * G * D := by
-      apply Nat.mul_le_mul_right
-      have : 8 * b ≤ 8 * (2 ^ 55 * G) := Nat.mul_le_mul_left _ (Nat.le_of_lt hbG)
-      have e : (2 ^ 58 + 1) * G = 8 * (2 ^ 55 * G) + G := by ring
-      omega
-    have h3 : 8 * (v * P) < (8 * b + G) * D := by
-      have : (8 * b + G) * D = 8 * (b * D) + G * D := by ring
-      omega
-    have h4 : (2 ^ 58 + 1) * G * D ≤ 7 * 10 ^ 17 * (G * D) := by
-      rw [Nat.mul_assoc]; exact Nat.mul_le_mul_right _ (by decide)
-    have h5 : 10 ^ 17 * (8 * P) < 10 ^ 17 * (7 * (G * D)) := by
-      calc 10 ^ 17 * (8 * P) = 8 * (10 ^ 17 * P) := by ring
-        _ ≤ 8 * (v * P) := h1
-        _ < (8 * b + G) * D := h3
-        _ ≤ (2 ^ 58 + 1) * G * D := h2
-        _ ≤ 7 * 10 ^ 17 * (G * D) := h4
-        _ = 10 ^ 17 * (7 * (G * D)) := by ring
-    exact Nat.le_of_lt (Nat.lt_of_mul_lt_mul_left h5)
+  have hP0 : 0 < P := by rw [← hPd]; exact Nat.pow_pos (by decide)
   -- the exact numerator and denominator in big-integer units
   have hG0 : 0 < G := by rw [← hGd]; exact Nat.pow_pos (by decide)
   have hD' : 0 < D * 10 ^ j := Nat.mul_pos hD h10j
@@ -84,14 +64,33 @@ theorem powerOfNegativeTen_close_trunc (v x j vt : Nat) (hv17 : 10 ^ 17 ≤ v) (
       _ = v * 10 ^ j * P + G * (D * 10 ^ j) := by ring
       _ ≤ vt * P + G * (D * 10 ^ j) := Nat.add_le_add_right (Nat.mul_le_mul_right _ ht1) _
   have q2' : vt * P ≤ b * (D * 10 ^ j) + G * (D * 10 ^ j) := by
-    have h1 : vt * P ≤ (v + 1) * 10 ^ j * P := Nat.mul_le_mul_right _ (Nat.le_of_lt ht2)
-    have h2 : 8 * ((v + 1) * 10 ^ j * P) ≤ 8 * (b * (D * 10 ^ j) + G * (D * 10 ^ j)) := by
-      calc 8 * ((v + 1) * 10 ^ j * P) = (8 * (v * P) + 8 * P) * 10 ^ j := by ring
-        _ ≤ (8 * (b * D) + G * D + 7 * (G * D)) * 10 ^ j :=
-            Nat.mul_le_mul_right _ (Nat.add_le_add (Nat.le_of_lt q2) htr)
-        _ = 8 * (b * (D * 10 ^ j) + G * (D * 10 ^ j)) := by ring
-    exact Nat.le_trans h1 (Nat.le_of_mul_le_mul_left h2 (by decide))
-  clear q1 q2 htr
+    have hA : 8 * b + G ≤ 7 * 10 ^ 17 * G := by
+      have h1 : 8 * b ≤ 8 * (2 ^ 55 * G) := Nat.mul_le_mul_left _ (Nat.le_of_lt hbG)
+      have h2 : 8 * (2 ^ 55 * G) + G = (2 ^ 58 + 1) * G := by ring
+      have h3 : (2 ^ 58 + 1) * G ≤ 7 * 10 ^ 17 * G := Nat.mul_le_mul_right _ (by decide)
+      omega
+    have hB : 8 * (b * D) + G * D ≤ 7 * 10 ^ 17 * (G * D) := by
+      calc 8 * (b * D) + G * D = (8 * b + G) * D := by ring
+        _ ≤ 7 * 10 ^ 17 * G * D := Nat.mul_le_mul_right _ hA
+        _ = 7 * 10 ^ 17 * (G * D) := by ring
+    have hC : (10 ^ 17 + 1) * (8 * (b * D) + G * D) ≤ 10 ^ 17 * (8 * (b * D + G * D)) := by
+      have e1 : (10 ^ 17 + 1) * (8 * (b * D) + G * D) = 10 ^ 17 * (8 * (b * D) + G * D) + (8 * (b * D) + G * D) := by ring
+      have e2 : 10 ^ 17 * (8 * (b * D + G * D)) = 10 ^ 17 * (8 * (b * D) + G * D) + 7 * 10 ^ 17 * (G * D) := by ring
+      omega
+    have hDd : 10 ^ 17 * (8 * (vt * P)) < (10 ^ 17 + 1) * (8 * (v * P)) * 10 ^ j := by
+      calc 10 ^ 17 * (8 * (vt * P)) = 10 ^ 17 * vt * (8 * P) := by ring
+        _ < (10 ^ 17 + 1) * (v * 10 ^ j) * (8 * P) := Nat.mul_lt_mul_of_pos_right ht2 (by omega)
+        _ = (10 ^ 17 + 1) * (8 * (v * P)) * 10 ^ j := by ring
+    have hE : (10 ^ 17 + 1) * (8 * (v * P)) * 10 ^ j ≤ (10 ^ 17 + 1) * (8 * (b * D) + G * D) * 10 ^ j :=
+      Nat.mul_le_mul_right _ (Nat.mul_le_mul_left _ (Nat.le_of_lt q2))
+    have hF : 10 ^ 17 * (8 * (vt * P)) < 10 ^ 17 * (8 * (b * (D * 10 ^ j) + G * (D * 10 ^ j))) := by
+      calc 10 ^ 17 * (8 * (vt * P)) < (10 ^ 17 + 1) * (8 * (v * P)) * 10 ^ j := hDd
+        _ ≤ (10 ^ 17 + 1) * (8 * (b * D) + G * D) * 10 ^ j := hE
+        _ ≤ 10 ^ 17 * (8 * (b * D + G * D)) * 10 ^ j := Nat.mul_le_mul_right _ hC
+        _ = 10 ^ 17 * (8 * (b * (D * 10 ^ j) + G * (D * 10 ^ j))) := by ring
+    have := Nat.lt_of_mul_lt_mul_left hF
+    omega
+  clear q1 q2
   generalize hN : vt * P = N at *
   generalize hD2 : D * 10 ^ j = D' at *
   have hNlow : 2 ^ 58 * D' ≤ N := by
@@ -147,14 +146,30 @@ end Qentem.StrToNum
 namespace Qentem.StrToNum
 open Qentem.Round
 
+/-- an absolute truncation bound (`< 1` unit of a mantissa `≥ 10^17`) is a relative bound of `10^-17` -/
+theorem trunc_rel_of_abs (v j vt : Nat) (hv17 : 10 ^ 17 ≤ v) (ht2 : vt < (v + 1) * 10 ^ j) :
+    10 ^ 17 * vt < (10 ^ 17 + 1) * (v * 10 ^ j) := by
+  have h1 : 10 ^ 17 * ((v + 1) * 10 ^ j) ≤ (10 ^ 17 + 1) * (v * 10 ^ j) := by
+    have e1 : 10 ^ 17 * ((v + 1) * 10 ^ j) = (10 ^ 17 * v + 10 ^ 17) * 10 ^ j := by ring
+    have e2 : (10 ^ 17 + 1) * (v * 10 ^ j) = (10 ^ 17 * v + v) * 10 ^ j := by ring
+    rw [e1, e2]; exact Nat.mul_le_mul_right _ (by omega)
+  exact Nat.lt_of_lt_of_le (Nat.mul_lt_mul_of_pos_left ht2 (Nat.pow_pos (by decide))) h1
+
 /-- `realResult` on the negative side for a truncated mantissa: rejected only when the exact value is below the smallest
 subnormal, otherwise a Real within one ulp of the correctly rounded **exact** value `vt / 10^(x+j)` -/
-theorem realResult_neg_trunc (neg : Bool) (v n x off j vt : Nat) (hv17 : 10 ^ 17 ≤ v) (hv : v < 2 ^ 64)
-    (hvn : v < 10 ^ n) (hn : n ≤ 20) (hx : x < 2 ^ 31) (ht1 : v * 10 ^ j ≤ vt) (ht2 : vt < (v + 1) * 10 ^ j) :
+theorem realResult_neg_trunc (neg : Bool) (v n x off j vt : Nat) (hv16 : 10 ^ 16 ≤ v) (hv : v < 2 ^ 64)
+    (hvn : v < 10 ^ n) (hn : n ≤ 20) (hx : x < 2 ^ 31) (ht1 : v * 10 ^ j ≤ vt)
+    (ht2 : 10 ^ 17 * vt < (10 ^ 17 + 1) * (v * 10 ^ j)) :
     ClassOutcome neg vt (x + j) true off (realResult neg v n x true off) := by
   have hv0 : v ≠ 0 := by
-    have : 0 < 10 ^ 17 := Nat.pow_pos (by decide)
+    have : 0 < 10 ^ 16 := Nat.pow_pos (by decide)
     omega
+  have h10j : 0 < 10 ^ j := Nat.pow_pos (by decide)
+  have ht2w : vt < 2 * v * 10 ^ j := by
+    have h1 : (10 ^ 17 + 1) * (v * 10 ^ j) ≤ 10 ^ 17 * (2 * v * 10 ^ j) := by
+      have e2 : 10 ^ 17 * (2 * v * 10 ^ j) = (10 ^ 17 + 10 ^ 17) * (v * 10 ^ j) := by ring
+      rw [e2]; exact Nat.mul_le_mul_right _ (by decide)
+    exact Nat.lt_of_mul_lt_mul_left (Nat.lt_of_lt_of_le ht2 h1)
   by_cases hr : x > n + 324
   · have hsub : sub32 x n = x - n := sub32_eq _ _ (by omega) (by omega)
     have hc : x > n ∧ sub32 x n > 324 := ⟨by omega, by rw [hsub]; omega⟩
@@ -162,9 +177,12 @@ theorem realResult_neg_trunc (neg : Bool) (v n x off j vt : Nat) (hv17 : 10 ^ 17
     · unfold realResult; simp [hv0, hc]
     · simp only [if_true]
       have h1 : 10 ^ (n + 325) ≤ 10 ^ x := Nat.pow_le_pow_right (by decide) (by omega)
-      have h2 : vt < 10 ^ n * 10 ^ j := Nat.lt_of_lt_of_le ht2 (Nat.mul_le_mul_right _ (by omega))
-      calc vt * 2 ^ 1074 < 10 ^ n * 10 ^ j * 2 ^ 1074 := Nat.mul_lt_mul_of_pos_right h2 (Nat.pow_pos (by decide))
-        _ ≤ 10 ^ n * 10 ^ j * 10 ^ 325 := Nat.mul_le_mul_left _ minSub_pow325
+      have h2 : vt < 2 * 10 ^ n * 10 ^ j :=
+        Nat.lt_of_lt_of_le ht2w (Nat.mul_le_mul_right _ (Nat.mul_le_mul_left _ (Nat.le_of_lt hvn)))
+      have hm : 2 * 2 ^ 1074 ≤ 10 ^ 325 := by decide +kernel
+      calc vt * 2 ^ 1074 < 2 * 10 ^ n * 10 ^ j * 2 ^ 1074 := Nat.mul_lt_mul_of_pos_right h2 (Nat.pow_pos (by decide))
+        _ = 10 ^ n * 10 ^ j * (2 * 2 ^ 1074) := by ring
+        _ ≤ 10 ^ n * 10 ^ j * 10 ^ 325 := Nat.mul_le_mul_left _ hm
         _ = 10 ^ (n + 325) * 10 ^ j := by rw [Nat.pow_add]; ring
         _ ≤ 10 ^ x * 10 ^ j := Nat.mul_le_mul_right _ h1
         _ = 10 ^ (x + j) := (Nat.pow_add _ _ _).symm
@@ -172,11 +190,23 @@ theorem realResult_neg_trunc (neg : Bool) (v n x off j vt : Nat) (hv17 : 10 ^ 17
       intro ⟨h1, h2⟩
       rw [sub32_eq _ _ (by omega) (by omega)] at h2
       omega
-    obtain ⟨p, hp, hclose⟩ := powerOfNegativeTen_close_trunc v x j vt hv17 hv (by omega) ht1 ht2
+    obtain ⟨p, hp, hclose⟩ := powerOfNegativeTen_close_trunc v x j vt hv16 hv (by omega) ht1 ht2
     have hp63 := powerOfNegativeTen_lt v x p hp
-    refine ⟨⟨.real, p ||| (if neg then 0x8000000000000000 else 0), off⟩, ?_, rfl, Or.inr ⟨rfl, or_sign_div p neg hp63, ?_⟩⟩
+    refine ⟨⟨.real, p ||| (if neg then 0x8000000000000000 else 0), off⟩, ?_, rfl, Or.inr ⟨rfl, or_sign_div p neg hp63, ?_, ?_⟩⟩
     · unfold realResult; simp [hv0, hc, hp]
     · simp only [if_true]
       rw [or_sign_mod p neg hp63]; exact hclose
+    · simp only [if_true]
+      intro hov
+      exfalso
+      have h10j : 0 < 10 ^ j := Nat.pow_pos (by decide)
+      have h1 : vt < 2 * 2 ^ 64 * 10 ^ j :=
+        Nat.lt_of_lt_of_le ht2w (Nat.mul_le_mul_right _ (Nat.mul_le_mul_left _ (Nat.le_of_lt hv)))
+      have h2 : 2 * (2 : Nat) ^ 64 * 10 ^ j ≤ (2 ^ 53 - 1) * 2 ^ 971 * 10 ^ (x + j) := by
+        rw [Nat.pow_add, ← Nat.mul_assoc]
+        apply Nat.mul_le_mul_right
+        have h3 : 2 * (2 : Nat) ^ 64 ≤ (2 ^ 53 - 1) * 2 ^ 971 * 1 := by decide +kernel
+        exact Nat.le_trans h3 (Nat.mul_le_mul_left _ (Nat.pow_pos (by decide)))
+      omega
 
 end Qentem.StrToNum
